@@ -75,6 +75,30 @@ def load (acl : Acl) (de : List Nat → Option Entry) (deHeader : List Nat → O
     | none => none
   | _ => none
 
+/-- `LoadFromSnapshot` **as the Go port performs it**: the header and every record are decoded (a
+record that does not decode fails the load), but the decoded entries are NOT what the log is built
+from — `ipfslog.NewFromJSON` ignores `LogOptions.Entries` and fetches everything reachable from the
+recorded heads out of IPFS (`fetchAll heads`; on the node that saved the snapshot these are its own
+blocks). `load` above builds the log from the records; the two agree whenever the fetcher returns
+what was recorded (`Proofs/SnapshotFetch.lean`), which is how the theorems about `load` carry over. -/
+def loadFetching (acl : Acl) (de : List Nat → Option Entry) (deHeader : List Nat → Option (Nat × List Entry × Nat))
+    (fetchAll : List Entry → List Entry) (bs : List Nat) : Option Log :=
+  match decodeRecs 1 bs with
+  | some ([h], rest) =>
+    match deHeader h with
+    | some (id, heads, size) =>
+      match decodeRecs size rest with
+      | some (recs, _) =>
+        match recs.mapM de with
+        | some _ =>
+          match join acl.canAppend (Log.empty id) (ofList (fetchAll heads)) (ofList heads) id with
+          | .ok L => some L
+          | .error _ => none
+        | none => none
+      | none => none
+    | none => none
+  | _ => none
+
 /-! ### the replication status of the fresh store after `LoadFromSnapshot` -/
 
 /-- the largest clock time of a list of entries (0 for none) -/
